@@ -63,11 +63,14 @@ def tmpdir():
 def make_image(spec):
     """spec = [nx, ny, jitter*100, pattern, scale]: first pattern >= given whose raster obeys the filters"""
     import scipy.ndimage as ndi
-    nx, ny, jit, pat, scale = spec
-    for p in range(pat, pat + 60):
+    nx, ny, jit, pat, scale = spec[:5]
+    short = len(spec) > 5 and spec[5]      # ask for a tissue whose shortest ridge is barely above the 8 px of the quantifier
+    for p in range(pat, pat + 200):
         sites = T.hex_sites(nx, ny, jit / 100.0, p)
         img, topo = RR.raster(sites, scale)
         if topo["minridge"] <= 8.5 or topo["cells"] < 2:
+            continue
+        if short and topo["minridge"] > 10.5:
             continue
         # label image: region id under every background pixel (0 = outside / skeleton)
         lab, n = ndi.label(img == 0)
@@ -225,7 +228,7 @@ class Images(ProductSystem):
 
 def build(tier, seed):
     if tier == "quick":
-        specs = [[5, 5, 15, 0, 40], [8, 3, 15, 1, 36], [3, 8, 15, 2, 44], [5, 4, 20, seed + 3, 50]]
-        return [Images(specs, 3, [6, 3, 9])]
+        specs = [[5, 5, 15, 0, 40], [8, 3, 15, 1, 36], [3, 8, 15, 2, 44], [5, 4, 20, seed + 3, 50], [5, 4, 30, 0, 36, True]]
+        return [Images(specs, 3, [6, 3, 4, 5, 7, 8, 9])]
     specs = [[5, 5, 15, 0, 40], [8, 3, 15, 1, 36], [3, 8, 15, 2, 44], [5, 4, 20, seed + 3, 50], [6, 6, 10, 4, 60], [9, 4, 20, 5, 38], [4, 4, 25, 6, 90], [7, 7, 15, 7, 35]]
     return [Images(specs, 3, [6, 3, 4, 5, 7, 8, 9], shipped=["/repo/tests/data/test_nonzero.tif"])]
